@@ -360,6 +360,7 @@ class Lowerer:
             base = sanitize(name)
         if f.tmpl_args:
             a = self.tmpl_arg_str(f.node)
+            a = [re.sub(r'\(lambda at [^)]*?([^/:)]+):(\d+):(\d+)\)', lambda m: 'lambda_%s_L%s' % (re.sub(r'\W', '_', m.group(1)), m.group(2)), str(x)) for x in a]
             base += '_T_' + self.sig_suffix([str(x) for x in a])
         prefix = (f.cls.cname + '__') if f.cls is not None else ''
         if f.cls is None:
